@@ -17,6 +17,19 @@ def impl(case):
             except Exception as e:  # noqa
                 out.append(["exc", type(e).__name__])
         return {"res": out}
+    if case.get("op") == "depcheck":
+        from paulie import get_pauli_string
+        from paulie.classifier.morph_factory import MorphFactory
+        out = []
+        for legs, lighting in case["items"]:
+            m = MorphFactory()
+            m.legs = [list(get_pauli_string(leg)) for leg in legs]
+            try:
+                m.check_dependency_one_leg(get_pauli_string(lighting))
+                out.append("pass")
+            except Exception as e:  # noqa
+                out.append(type(e).__name__)
+        return {"res": out}
     from harness import cls
     out, c, _ = cls.classify(case["gens"], routes=case.get("routes"), trace=True)
     # repetition inside one process: same object, fresh classify(), fresh object
@@ -102,6 +115,28 @@ def validate_queue_translation(ck, base, count):
     src = ["From PauLieRefine Require Import PySem.", "From PauLie Require Import Pauli Collection.", "From PauLieGen Require Import QueueGen.", "Open Scope Z_scope.",
            "Fixpoint lps_eqb (a b : list pstr) : bool := match a, b with [], [] => true | x :: a', y :: b' => pstr_eqb x y && lps_eqb a' b' | _, _ => false end.",
            "Definition same (r : fres (list pstr)) (e : list pstr) : bool := match r with FRet a => lps_eqb a e | _ => false end."]
+    # check_dependency_one_leg on arbitrary leg lists (the function asks nothing of their shape): random legs, lightings that are products of vertices
+    ditems = []
+    for _ in range(count):
+        n = ck.rng.randint(2, 5)
+        legs = [[G.uniform(ck.rng, n)]] + [[G.uniform(ck.rng, n) for _ in range(1 if ck.rng.random() < 0.8 else ck.rng.randint(2, 3))] for _ in range(ck.rng.randint(0, 6))]
+        legs[1:] = sorted(legs[1:], key=len) if ck.rng.random() < 0.8 else legs[1:]
+        verts = [v for leg in legs for v in leg]
+        lighting = "I" * n
+        for v in ck.rng.sample(verts, min(len(verts), ck.rng.choice([1, 2, 3, 3, 4, 5]))):
+            lighting = G.mul(lighting, v)
+        if ck.rng.random() < 0.2:
+            lighting = G.uniform(ck.rng, n)
+        ditems.append([legs, lighting])
+    dres = [r for rr in ck.impl("c03", [{"op": "depcheck", "items": ditems[i:i + 100]} for i in range(0, len(ditems), 100)], per_case_s=120) for r in rr["res"]]
+    dkinds = {}
+    for (legs, lighting), r in zip(ditems, dres):
+        dkinds[r] = dkinds.get(r, 0) + 1
+        exp = "FRet tt" if r == "pass" else 'FRaised (EUser "%s"%%string)' % r
+        lines.append("Definition c%d : bool := sameu (py_Q_check_dependency_one_leg [%s] %s) (%s)." % (len(kept), ";".join("[" + ";".join(coq_pstr(x) for x in leg) + "]" for leg in legs), coq_pstr(lighting), exp))
+        kept.append((["check_dependency_one_leg", legs, lighting], r))
+    src.append("Definition exn_eqb (a b : exn) : bool := match a, b with EUser x, EUser y => String.eqb x y | EZeroDivision, EZeroDivision | EKey, EKey | EType, EType | EIndex, EIndex => true | _, _ => false end.")
+    src.append("Definition sameu (r e : fres unit) : bool := match r, e with FRet _, FRet _ => true | FRaised a, FRaised b => exn_eqb a b | _, _ => false end.")
     src += lines
     src.append("Definition all_ := [%s]." % "; ".join("c%d" % i for i in range(len(kept))))
     src.append("Eval vm_compute in all_.")
@@ -114,10 +149,11 @@ def validate_queue_translation(ck, base, count):
         return {"cases": len(kept), "error": r.stdout[-600:]}
     vals = [v.strip() for v in m.group(1).replace("\n", " ").split(";")] if m.group(1).strip() else []
     # the theorem's conclusion, observed on the implementation's own queues: a permutation in which every later member anticommutes with an earlier one
-    disorder = [g for g, qd in kept if sorted(qd) != sorted(g) or any(not any(G.anti(qd[i], qd[j]) for j in range(i)) for i in range(1, len(qd)))]
+    disorder = [g for g, qd in kept if g[0] != "check_dependency_one_leg" and (sorted(qd) != sorted(g) or any(not any(G.anti(qd[i], qd[j]) for j in range(i)) for i in range(1, len(qd))))]
     return {"cases": len(kept), "agree": sum(1 for v in vals if v == "true"), "disagree": [kept[i][0] for i, v in enumerate(vals) if v != "true"],
             "implementation_raised": sum(1 for r in res if r[0] != "ok"), "queue_not_a_connected_order": disorder,
-            "sizes": {str(k): sum(1 for g, _ in kept if len(g) == k) for k in sorted({len(g) for g, _ in kept})}}
+            "check_dependency_outcomes": dkinds,
+            "sizes": {str(k): sum(1 for g, _ in kept if g[0] != "check_dependency_one_leg" and len(g) == k) for k in sorted({len(g) for g, _ in kept if g[0] != "check_dependency_one_leg"})}}
 
 
 def main():
@@ -145,7 +181,8 @@ def main():
         if tv.get("error"):
             ck.obligation_broken("the generated translation of MorphFactory._get_queue could not be evaluated", tv["error"])
         for g in tv.get("disagree", [])[:5]:
-            ck.correspondence_broken("_get_queue(%s): the Gallina translation does not return the order the implementation returns" % g, {"gens": g, "transformation": "queue", "transformed": g})
+            what = ("check_dependency_one_leg(legs=%s, lighting=%s)" % (g[1], g[2])) if g[0] == "check_dependency_one_leg" else "_get_queue(%s)" % g
+            ck.correspondence_broken(what + ": the Gallina translation does not do what the implementation does", {"gens": g, "transformation": "queue", "transformed": g})
         for g in tv.get("queue_not_a_connected_order", [])[:5]:
             ck.correspondence_broken("_get_queue(%s): the implementation's queue is not a permutation of the component in connected order (what Refine/QueueRefine.v proves of the source)" % g, {"gens": g, "transformation": "queue", "transformed": g})
     jobs = []   # (base index, transformation name, n, gens)
